@@ -37,6 +37,9 @@ def pinn_case(rng, cid):
     dim_x = 0 if eq_type == "ODE" else rng.choice([1, 2])
     nin = {"ODE": 1, "statio_PDE": dim_x, "nonstatio_PDE": dim_x + 1}[eq_type]
     h, nout = rng.randint(2, 3), rng.randint(1, 3)
+    forced = cid < 6                                  # the first cases always use integer indices, index 0 among them
+    if forced:
+        nout = max(nout, 2)
     eqx_list = ((eqx.nn.Linear, nin, h), (square,), (eqx.nn.Linear, h, nout))
     use_tin, use_tout = rng.random() < 0.5, rng.random() < 0.5
     shared = None
@@ -46,13 +49,25 @@ def pinn_case(rng, cid):
     if use_tout:
         kw["output_transform"] = lambda i, o, p: o + p.eq_params["a"] * i[0]
     osl = None
-    if nout >= 2 and rng.random() < 0.5:
-        lo = rng.randrange(nout - 1); hi = rng.randint(lo + 1, nout)
-        osl = (lo, hi)
-        kw["shared_pinn_outputs"] = (jnp.s_[lo:hi], jnp.s_[0:1])
+    int_index = False
+    if nout >= 2 and (forced or rng.random() < 0.6):
+        def one_slice():
+            if forced:
+                j = [0, nout - 1, 0, 1, 0, 0][(cid + len(specs)) % 6]
+                return (j, j + 1), j, True
+            if rng.random() < 0.5:                       # an integer index (0 included) selects one component
+                j = rng.randrange(nout)
+                return (j, j + 1), j, True
+            lo = rng.randrange(nout - 1); hi = rng.randint(lo + 1, nout)
+            return (lo, hi), jnp.s_[lo:hi], False
+        specs = []
+        specs.append(one_slice()); specs.append(one_slice())
+        which = rng.randrange(2)
+        osl, int_index = specs[which][0], specs[which][2]
+        kw["shared_pinn_outputs"] = (specs[0][1], specs[1][1])
     u = jinns.utils.create_PINN(jax.random.PRNGKey(rng.randrange(1 << 30)), eqx_list, eq_type, dim_x, **kw)
     if isinstance(u, list):
-        u = u[0]
+        u = u[which]
     a = dy(rng, 1, 3)
     nnp = u.init_params()
     P = Params(nn_params=nnp, eq_params={"a": jnp.array(a)})
@@ -69,10 +84,13 @@ def pinn_case(rng, cid):
     fails = []
     if out.ndim < 1:
         fails.append("the wrapper returned a 0-d array (no trailing component axis)")
+    want_shape = ((osl[1] - osl[0]) if osl else nout,)
+    if tuple(out.shape) != want_shape:
+        fails.append(f"the wrapper returned shape {tuple(out.shape)}, its output slice has {want_shape[0]} component(s)")
     layers = export_layers(nnp.layers, u.static.layers)
     sl = f"(Some ({cnat(osl[0])}, {cnat(osl[1])}))" if osl else "None"
     term = f"Pinn {cnat(cid)} {clist(layers, clay)} {cq(a)} {cbool(use_tin)} {cbool(use_tout)} {sl} {clist(inputs, cq)} {clist(np.asarray(out).ravel().tolist(), cq)}"
-    meta = dict(what="pinn", eq_type=eq_type, dim_x=dim_x, h=h, nout=nout, use_tin=use_tin, use_tout=use_tout, oslice=osl, bare=bare, scalar_time=scalar_time)
+    meta = dict(what="pinn", eq_type=eq_type, dim_x=dim_x, h=h, nout=nout, use_tin=use_tin, use_tout=use_tout, oslice=osl, integer_index=int_index, bare=bare, scalar_time=scalar_time)
     return term, meta, fails
 
 
@@ -131,7 +149,7 @@ def generate(tier, seed, casedir, variant):
     N = 12 if tier == "quick" else 80
     cid = 0
     for mk_case in (pinn_case, spinn_case, hyper_case):
-        for _ in range(N):
+        for _ in range(2 * N if mk_case is pinn_case else N):
             try:
                 term, m, fails = mk_case(rng, cid)
             except Exception as ex:
@@ -149,7 +167,7 @@ def generate(tier, seed, casedir, variant):
             cid += 1
     write_cases(casedir, "C10", "R_C10", variant, cases, chunk=60)
     return dict(meta=meta, oracle_violations=viol, evaluations=len(cases), distinct_nontrivial=len(cases), samples=samples, distribution=dist,
-                rule="random architectures: create_PINN (ODE / stationary / non-stationary, input / output transforms reading an equation parameter, shared outputs, bare network parameters, scalar or (1,) time), create_SPINN (d = 1..3, embedding size 1..3, 1..2 outputs, 1..3 batch points, four grid indices each), create_HYPERPINN (two designated parameters, inner network with or without activation); weights exported as exact rationals; every case is non-trivial and distinct (fresh random weights)",
+                rule="random architectures: create_PINN (ODE / stationary / non-stationary, input / output transforms reading an equation parameter, shared outputs given as slices or integer indices (0 included; either of the two networks is evaluated), bare network parameters, scalar or (1,) time), create_SPINN (d = 1..3, embedding size 1..3, 1..2 outputs, 1..3 batch points, four grid indices each), create_HYPERPINN (two designated parameters, inner network with or without activation); weights exported as exact rationals; every case is non-trivial and distinct (fresh random weights)",
                 oracle_checks=len(cases))
 
 
